@@ -368,6 +368,20 @@ def body_dataset(ctx, kind, after_others=False):
         lonb[~wet] = numpy.nan
         latb[~wet] = numpy.nan
         ds = builders.cf2d(ny, nx, lat=lat, lon=lon, lat_bounds=latb, lon_bounds=lonb)
+    elif kind == 'cf1d-gaps':
+        # cell bounds given by the dataset that do not meet edge to edge (gaps, an overlap), latitude north to south
+        lat = numpy.array([12.0, 11.0, 10.0][:2 + which % 2])
+        lon = numpy.array([100.0, 102.0, 104.0])
+        ds = builders.cf1d(len(lat), 3, lat=lat, lon=lon, lat_bounds=numpy.stack([lat - 0.25, lat + 0.5], axis=-1),
+                           lon_bounds=numpy.stack([lon - 0.75 - 0.125 * which, lon + 1.125], axis=-1))
+    elif kind == 'cf2d-misdim':
+        # 2-D bounds stored (x, y, 4) next to coordinates stored (y, x): ignored with a warning, cells derived from the centres
+        jj, ii = numpy.meshgrid(numpy.arange(3.0), numpy.arange(4.0), indexing='ij')
+        lat, lon = 10.0 + jj + 0.25 * ii, 100.0 + 2.0 * ii - 0.5 * jj + 0.1 * which
+        off = [(-1, -1), (1, -1), (1, 1), (-1, 1)]
+        lonb = numpy.stack([lon + a * 1.0 - b * 0.25 for a, b in off], axis=-1).transpose(1, 0, 2).copy()
+        latb = numpy.stack([lat + a * 0.125 + b * 0.5 for a, b in off], axis=-1).transpose(1, 0, 2).copy()
+        ds = builders.cf2d(3, 4, lat=lat, lon=lon, lat_bounds=latb, lon_bounds=lonb, bounds_dims=('x', 'y', 'four'))
     elif kind == 'cf1d-big':
         # more than 2**16 cells of one shape (a 260 x 270 grid): the last ones are triangulated like the first
         ds = builders.cf1d(260, 270 + which, lat=numpy.linspace(-40.0, -10.0, 260), lon=numpy.linspace(110.0, 160.0, 270 + which))
@@ -453,7 +467,7 @@ def cases(tier):
         for reverse in (False, True):
             yield Case(f'ears:n{n}:{"rev" if reverse else "fwd"}', body_ears, dict(n=n, reverse=reverse), patches=_tri_patches,
                        max_paths=50000, split=16)
-    for kind in ('mesh', 'mesh-small', 'mesh-attr', 'cf2d', 'cf2d-dart', 'shoc_standard', 'cf1d', 'cf1d-int', 'sparse8') + (() if q else ('sparse16',)):
+    for kind in ('mesh', 'mesh-small', 'mesh-attr', 'cf1d-gaps', 'cf2d-misdim', 'cf2d', 'cf2d-dart', 'shoc_standard', 'cf1d', 'cf1d-int', 'sparse8') + (() if q else ('sparse16',)):
         yield Case(f'dataset:{kind}', body_dataset, dict(kind=kind), max_paths=20)
     yield Case('dataset:cf1d-big', body_dataset, dict(kind='cf1d-big'), max_paths=2)
     for kind in ('mesh', 'cf2d-dart'):
